@@ -38,6 +38,19 @@ def byte_index(tr, body, operand, depth=0):
             if d and d[2] == "assign" and d[3]["rv"]["r"] == "use" and "k" in d[3]["rv"]["o"]:
                 return d[3]["rv"]["o"]["k"].get("v")
         return None
+    # `let Some(&[a, b]) = bytes.first_chunk::<2>()`: element i of the chunk is bytes[i]
+    d0 = tr.single_def(np.l)
+    if d0 is not None and d0[2] == "call" and callee(d0[3]).endswith(("<impl [T]>::first_chunk", "<impl [T]>::split_first_chunk")):
+        s_ = tr.value(d0[3]["args"][0])
+        on_input = (s_.kind == "ref" and s_.place.strip_deref() == NPlace(1, [])) or \
+            (s_.kind == "place" and s_.place.strip_deref() == NPlace(1, []))
+        idx = [e for e in np.p if isinstance(e, tuple) and e[0] == "cidx"]
+        flds = [e for e in np.p if isinstance(e, tuple) and e[0] == "f"]
+        is_split = callee(d0[3]).endswith("split_first_chunk")
+        # first_chunk: (opt as Some).0 -> &[T; N];  split_first_chunk: (opt as Some).0.0 -> &[T; N]
+        if on_input and len(idx) == 1 and not idx[0][2] and [f_[1] for f_ in flds] == ([0, 0] if is_split else [0]):
+            return idx[0][1]
+        return None
     d = tr.single_def(np.l)
     if d is None or d[2] != "assign":
         return None
@@ -54,6 +67,18 @@ def len_test(tr, body, operand):
     """(M, true_means_short) if operand is a comparison of len(bytes) (bytes = param 1) with a constant,
     normalised so that the operand is true iff `len < M` (true_means_short) or iff `len >= M`."""
     v = tr.value(operand)
+    # `bytes.first_chunk::<M>()` is Some exactly when len >= M: its discriminant (Some = 1) is that test
+    if v.kind == "rv" and v.rv["r"] == "discr":
+        src = tr.value({"c": v.rv["p"]})
+        if src.kind == "call" and callee(src.term).endswith(("<impl [T]>::first_chunk", "<impl [T]>::split_first_chunk")):
+            s_ = tr.value(src.term["args"][0])
+            on_input = (s_.kind == "ref" and s_.place.strip_deref() == NPlace(1, [])) or \
+                (s_.kind == "place" and s_.place.strip_deref() == NPlace(1, []))
+            ns = [int(str(g.get("v", g.get("s", "")))) for g in (src.term.get("f") or {}).get("a", [])
+                  if isinstance(g, dict) and str(g.get("v", g.get("s", ""))).isdigit()]
+            if on_input and len(ns) == 1:
+                return (ns[0], False)
+        return None
     if not (v.kind == "rv" and v.rv["r"] == "bin" and v.rv["op"] in ("Lt", "Le", "Gt", "Ge")):
         return None
 
@@ -151,7 +176,9 @@ def enumerate_leaves(body, tr):
                     if box.short is None or box.short == b2.short:
                         go(tb, b2, evs, depth + 1)
                 b2 = box.copy()
-                b2.short = True if true_means_short else False
+                # the fall-through edge stands for "true" when 0 is listed, for 0 (false / None) when it is not
+                else_cond = any(v == 0 for v, _ in t["targets"])
+                b2.short = else_cond if true_means_short else not else_cond
                 if box.short is None or box.short == b2.short:
                     go(t["else"], b2, evs, depth + 1)
                 return
